@@ -1,7 +1,7 @@
 # C15 — workers are pinned to distinct PUs inside the process mask.
 # PROC/DIFF: one process of the REAL runtime per case (harness/c15_bind.cpp) under a generated hwloc
-# topology (HWLOC_XMLFILE: sockets x cores x SMT, regular and irregular, permuted OS indices; a few
-# through HWLOC_SYNTHETIC; the real machine), process mask, binding mode, thread count and pool
+# topology (HWLOC_XMLFILE: sockets x cores x SMT, regular and irregular; OS numbering identity, "Intel",
+# random permutation or sparse; regular ones also through HWLOC_SYNTHETIC "(indexes=...)"; the real machine), process mask, binding mode, thread count and pool
 # partition; the extracted Coq model (Model/Affinity.v) runs on the same inputs; the OUT lines are
 # compared exactly.  Monitors evaluate the property on the implementation's output alone.
 import os
@@ -18,6 +18,11 @@ ASSUMPTIONS = [
     'std::round(double(a)/double(b)) in decode_numabalanced_distribution is modelled as (2a+b)/(2b), exact for operands < 2^26',
     'the dead branch "affinity mask for thread N has already been set" and used_cores != 0 are not modelled '
     '(affinity_data::init is only called with used_cores = 0)',
+    'OS numbering of the PUs: the theorems cover every injective numbering; the generator draws identity, "Intel", random '
+    'permutations and sparse numberings with OS indices < 64 (for an OS index >= the size of the user mask rounded up to 64 '
+    'the real conversion loop reads past the end of the mask: valgrind invalid read, see notes/design/C15.md); hwloc orders '
+    'siblings by lowest OS index, so only numberings consistent with that order can be shown to pika (every generated '
+    'machine is compared with hwloc\'s own view: c15_bind TOPO)',
     '--pika:cores (max_cores) keeps its default (= number of threads); explicit --pika:cores smaller than the thread '
     'count together with --pika:ignore-process-mask is outside the property quantifier (one fixed witness case of it is '
     'run: finding C15:compact:cores_lt_threads_truncated = Example C15_worker_count_compact_unguarded_refuted)',
@@ -38,7 +43,14 @@ def topo_xml(sockets, osidx):
         return gp[0]
 
     def cs(bits):
-        return '0x%08x' % bits
+        # hwloc bitmap syntax: 32-bit words, most significant first, comma separated
+        parts = []
+        while True:
+            parts.append('0x%08x' % (bits & 0xffffffff))
+            bits >>= 32
+            if not bits:
+                break
+        return ','.join(reversed(parts))
     ns = 'nodeset="0x00000001" complete_nodeset="0x00000001"'
     out = ['<?xml version="1.0" encoding="UTF-8"?>', '<!DOCTYPE topology SYSTEM "hwloc2.dtd">',
            '<topology version="2.0">',
@@ -76,10 +88,23 @@ def topo_xml(sockets, osidx):
     return '\n'.join(out) + '\n'
 
 
+def hwloc_order(shape, assign):
+    """shape: sockets -> cores -> number of PUs; assign: one OS index per PU in that order (ANY injective
+    numbering).  hwloc orders siblings by their lowest OS index at every level; returns the machine as hwloc
+    numbers it logically: (sockets, osidx) with osidx[i] = OS index of logical PU i.  (Checked against hwloc
+    itself on every generated topology: c15_bind TOPO.)"""
+    it = iter(assign)
+    socks = [[sorted(next(it) for _ in range(c)) for c in s] for s in shape]
+    for sk in socks:
+        sk.sort(key=min)
+    socks.sort(key=lambda sk: min(min(c) for c in sk))
+    return [[len(c) for c in sk] for sk in socks], [o for sk in socks for c in sk for o in c]
+
+
 class Case:
     """one start of the runtime"""
 
-    def __init__(self, cid, sockets, osidx, use, mask, bind, n, pools, env_kind='xml', probe=0, cores=None):
+    def __init__(self, cid, sockets, osidx, use, mask, bind, n, pools, env_kind='xml', probe=0, cores=None, synth=None):
         self.id = cid
         self.sockets = sockets          # list of list of PU counts
         self.osidx = osidx              # OS index of logical PU i
@@ -92,6 +117,8 @@ class Case:
         self.probe = probe
         self.cores = cores              # explicit --pika:cores (max_cores); None = default (= thread count)
         self.real_mask = None           # logical PUs allowed by the OS (real machine only)
+        self.synth = synth              # explicit HWLOC_SYNTHETIC string (env_kind == 'synthetic')
+        self.numbering = 'identity'     # identity | intel | perm (dense, any order) | sparse
 
     def total(self):
         return sum(sum(s) for s in self.sockets)
@@ -135,6 +162,18 @@ class Case:
         if self.mask is None:
             return set(range(tot)) if self.real_mask is None else set(self.real_mask)
         return set(i for i in range(tot) if self.osidx[i] in self.mask)
+
+    def expected_pm(self):
+        """the logical process mask pika must work with (independently of use), as an int; None = unknown"""
+        tot = self.total()
+        if self.mask is None:
+            lg = range(tot) if self.real_mask is None else self.real_mask
+        else:
+            lg = [i for i in range(tot) if self.osidx[i] in self.mask]
+        v = 0
+        for i in lg:
+            v |= 1 << i
+        return v
 
     def expected_n(self):
         eff = self.eff_logical()
@@ -184,6 +223,37 @@ def monitor(c, line):
     eff = c.eff_logical()
     tot = c.total()
     want = c.expected_n()
+    # the user's mask (OS indices): rejected exactly when a bit lies at or past the NUMBER of PUs ("past the
+    # hardware concurrency") or no bit is set; the stored logical mask = the PUs whose OS index is set
+    if c.mask is not None:
+        past = [b for b in c.mask if b >= tot]
+        e = d.get('err')
+        if e == 'mask_past_hw':
+            if not past:
+                hits.append(('C15:process_mask:rejected_inside_hw', 'mask %s has no bit at or past %d PUs but was rejected '
+                             'as past the hardware' % (c.mask, tot)))
+            elif c.mask and all(b in c.osidx for b in c.mask):
+                # defect observation (sparse OS numbering): every bit names an existing PU
+                hits.append(('note', 'mask_of_existing_pus_rejected_as_past_hw'))
+        elif e == 'mask_empty':
+            if c.mask:
+                hits.append(('C15:process_mask:nonempty_rejected_as_empty', 'mask %s rejected as empty' % c.mask))
+        elif e not in ('crash', 'hang'):
+            if past:
+                hits.append(('C15:process_mask:past_hw_accepted', 'mask %s has bits at or past the %d PUs of the machine '
+                             'and was accepted' % (c.mask, tot)))
+            elif not c.mask:
+                hits.append(('C15:process_mask:empty_accepted', 'empty process mask accepted'))
+    if 'pm' in d:
+        try:
+            got = int(d['pm'], 16)
+        except ValueError:
+            got = -1
+        if got != c.expected_pm():
+            hits.append(('C15:process_mask:conversion', 'OS mask %s on OS numbering %s: pika works with the logical mask '
+                         '0x%x, the PUs whose OS index is set are 0x%x' % (c.mask, c.osidx, got, c.expected_pm())))
+        elif c.mask is not None and got == 0:
+            hits.append(('note', 'accepted_mask_names_no_pu'))
     if mode == 'offset':
         return hits     # --pika:pu-offset/--pika:pu-step: outside the property (correspondence only)
     if 'err' in d:
@@ -201,7 +271,7 @@ def monitor(c, line):
                 hits.append(('C15:%s:oversub_wrong_error' % mode, 'oversubscribed request failed with %s' % e))
         else:
             if mode == 'numa-balanced' and e == 'count_mismatch':
-                return [('note', 'numa_rejects_satisfiable')]
+                return hits + [('note', 'numa_rejects_satisfiable')]
             if e in ('pu_taken', 'default_pool_empty', 'empty_pool') and c.pools:
                 return hits     # the harness's own pool request was unsatisfiable
             hits.append(('C15:%s:satisfiable_rejected' % mode,
@@ -309,7 +379,26 @@ def gen_cases(rng, ncases, real):
                 socks[-1].pop() if len(socks[-1]) > 1 else socks.pop()
         tot = sum(sum(s) for s in socks)
         osidx = list(range(tot))
-        if rng.random() < 0.3:
+        r = rng.random()
+        if r < 0.3:
+            # ARBITRARY injective OS numbering: a random permutation of 0..tot-1 (dense, non-monotone) or tot
+            # different indices below 64 (sparse; < 64 so that the conversion's test(mask, os_index) stays inside the
+            # first storage word of the user's mask — beyond it the real code reads past the heap block).
+            # hwloc renumbers the PUs logically by lowest OS index (hwloc_order); regular shapes go through
+            # HWLOC_SYNTHETIC "(indexes=...)" half of the time (hwloc then does the ordering itself), the rest
+            # through generated XML.
+            if rng.random() < 0.5:
+                assign, kind = rng.sample(range(tot), tot), 'perm'
+            else:
+                top = rng.choice([tot + 1, tot + 3, 2 * tot + 1, 24, 40, 64])
+                assign, kind = rng.sample(range(max(top, tot + 1)), tot), 'sparse'
+            synth = None
+            if len(set(tuple(sk) for sk in socks)) == 1 and len(set(socks[0])) == 1 and rng.random() < 0.5:
+                synth = 'package:%d core:%d pu:%d(indexes=%s)' % (len(socks), len(socks[0]), socks[0][0],
+                                                                 ','.join(str(x) for x in assign))
+            socks, osidx = hwloc_order(socks, assign)
+            return socks, osidx, kind, synth
+        if r < 0.55:
             # "Intel" numbering: first hardware thread of every core, then the second, ...  (hwloc orders
             # siblings by their lowest OS index, so this keeps the logical order of the generator)
             cs = [c for s in socks for c in s]
@@ -320,7 +409,8 @@ def gen_cases(rng, ncases, real):
                     if j < c:
                         osidx[start[ci] + j] = nxt
                         nxt += 1
-        return socks, osidx
+            return socks, osidx, 'intel', None
+        return socks, osidx, 'identity', None
 
     def rand_mask(tot, socks):
         r = rng.random()
@@ -330,6 +420,26 @@ def gen_cases(rng, ncases, real):
             return 'socket0'
         m = [b for b in range(tot) if rng.random() < 0.6]
         return m if m else [rng.randrange(tot)]
+
+    def rand_os_mask(tot, osidx):
+        """masks for arbitrary numberings: in terms of the OS indices of the PUs, or of raw bits below #PUs"""
+        r = rng.random()
+        if r < 0.12:
+            return sorted(osidx)                                    # exactly the machine (rejected when sparse)
+        if r < 0.35:
+            m = [o for o in osidx if rng.random() < 0.6]            # some PUs, by OS index
+            return sorted(m) if m else [rng.choice(osidx)]
+        if r < 0.6:
+            m = [b for b in range(tot) if rng.random() < 0.6]       # raw bits below #PUs (may name no PU)
+            return m if m else [rng.randrange(tot)]
+        if r < 0.63:
+            return []                                               # empty: must be rejected
+        m = [o for o in osidx if o < tot and rng.random() < 0.7]    # PUs that an accepted mask can name
+        if not m:
+            m = [o for o in osidx if o < tot][:1] or [rng.randrange(tot)]
+        if rng.random() < 0.3:
+            m = m + [m[0]] if rng.random() < 0.5 else list(reversed(m))   # the bit list is a set: order/duplicates irrelevant
+        return m
 
     # fixed regression cases (the two topologies on which the unfixed code hangs / loses workers; E3)
     for socks in ([[1, 1], [2, 2]], [[2, 2], [1, 1]]):
@@ -346,11 +456,24 @@ def gen_cases(rng, ncases, real):
     cases.append(Case(cid(), [[2, 2], [2, 2]], list(range(8)), True, list(range(8)), 'balanced', 6, [[1, 3], [2]], probe=2))
     cases.append(Case(cid(), [[2, 2], [2, 2]], list(range(8)), True, None, 'balanced', 3, [], env_kind='synthetic'))
     cases.append(Case(cid(), [[2, 2], [2, 2]], list(range(8)), True, [1, 2, 4, 5, 6, 7], 'numa-balanced', 3, [], env_kind='synthetic'))
+    # arbitrary OS numberings, fixed witnesses (Examples C15_process_mask_nonmonotone / _empty_result_accepted):
+    # non-monotone dense numbering: OS mask 0x3 -> logical 0x5; sparse numbering: the machine's own PUs rejected,
+    # bits that name no PU accepted with an empty logical mask
+    nm = 'package:1 core:2 pu:2(indexes=0,2,1,3)'
+    sp = 'package:1 core:2 pu:2(indexes=0,4,2,6)'
+    for (syn, osx, kind, mask, bind, n) in (
+            (nm, [0, 2, 1, 3], 'perm', [0, 1], 'compact', 2), (nm, [0, 2, 1, 3], 'perm', [0, 1], 'scatter', 3),
+            (nm, [0, 2, 1, 3], 'perm', [2, 3], 'balanced', 2), (nm, [0, 2, 1, 3], 'perm', [0, 4], 'compact', 1),
+            (sp, [0, 4, 2, 6], 'sparse', [0, 2, 4, 6], 'compact', 2), (sp, [0, 4, 2, 6], 'sparse', [0, 2], 'scatter', 2),
+            (sp, [0, 4, 2, 6], 'sparse', [1, 3], 'compact', 1), (sp, [0, 4, 2, 6], 'sparse', [], 'compact', 1)):
+        c = Case(cid(), [[2, 2]], osx, True, mask, bind, n, [], env_kind='synthetic', synth=syn)
+        c.numbering = kind
+        cases.append(c)
     while len(cases) < ncases:
-        socks, osidx = rand_topo()
+        socks, osidx, numbering, synth = rand_topo()
         tot = sum(sum(s) for s in socks)
         use = rng.random() < 0.8
-        mask = rand_mask(tot, socks)
+        mask = rand_os_mask(tot, osidx) if numbering in ('perm', 'sparse') else rand_mask(tot, socks)
         if mask == 'socket0':
             mask = sorted(osidx[i] for i in range(sum(socks[0])))
         if rng.random() < 0.03:
@@ -369,6 +492,8 @@ def gen_cases(rng, ncases, real):
             n = max(eff, 1)
         else:
             n = rng.randint(1, max(eff, 1))
+        if eff == 0 and n in ('cores', 'all'):
+            n = 1       # (keyword with an empty logical mask = "--pika:threads must be greater than 0": not modelled)
         pools = []
         probe = 0
         if rng.random() < 0.15 and isinstance(n, int) and n >= 2:
@@ -383,7 +508,9 @@ def gen_cases(rng, ncases, real):
                 npools = 1
             cut = rng.randint(1, len(chosen) - 1) if npools == 2 else len(chosen)
             pools = [chosen[:cut]] + ([chosen[cut:]] if npools == 2 else [])
-        c = Case(cid(), socks, osidx, use, mask if (use or rng.random() < 0.5) else None, bind, n, pools, probe=probe)
+        c = Case(cid(), socks, osidx, use, mask if (use or rng.random() < 0.5) else None, bind, n, pools, probe=probe,
+                 env_kind='synthetic' if synth else 'xml', synth=synth)
+        c.numbering = numbering
         if c.mask is None and use:
             c.mask = list(range(tot))
         cases.append(c)
@@ -412,11 +539,12 @@ def gen_cases(rng, ncases, real):
 
 def run(ctx):
     r = Result()
-    r.rule = ('PROC/DIFF: (topology [sockets x cores x SMT, regular and irregular, optionally permuted OS indices], '
+    r.rule = ('PROC/DIFF: (topology [sockets x cores x SMT, regular and irregular; OS numbering identity / "Intel" / random '
+              'permutation / sparse (indices < 64), the last two through XML and HWLOC_SYNTHETIC indexes=], '
               'process mask, binding mode, thread count 1..|mask|+1 or cores/all, pool partition) drawn from VERIF_SEED; '
               'one process of the real runtime per case under HWLOC_XMLFILE / HWLOC_SYNTHETIC / the real machine; the '
               'extracted model runs on the same inputs and the full output line (workers: mask, reported PU, pool; pools; '
-              'error class) is compared; non-trivial = accepted with >= 2 workers and (>= 2 sockets or a partial mask or >= 2 pools)')
+              'error class; the converted logical process mask pm=) is compared; non-trivial = accepted with >= 2 workers and (>= 2 sockets or a partial mask or >= 2 pools)')
     ctx.build_pika()
     drv = ctx.build_model('C15', 'ExtractC15.v', 'drv_c15.ml')
     h = ctx.build_harness('c15_bind', 'c15_bind.cpp')
@@ -455,9 +583,31 @@ def run(ctx):
             e['HWLOC_XMLFILE'] = xml_of[key]
         elif c.env_kind == 'synthetic':
             s = c.sockets
-            e['HWLOC_SYNTHETIC'] = 'package:%d core:%d pu:%d' % (len(s), len(s[0]), s[0][0])
+            e['HWLOC_SYNTHETIC'] = c.synth or 'package:%d core:%d pu:%d' % (len(s), len(s[0]), s[0][0])
         return e
     envs = [env_for(c) for c in cases]      # (files written before the parallel phase)
+
+    # the generator's idea of every generated machine (logical order, OS index of every PU) against hwloc's own
+    # view of the XML file / synthetic string (c15_bind TOPO uses the hwloc API only, not pika's topology code)
+    topo_envs = {}
+    for c, e in zip(cases, envs):
+        if c.env_kind in ('xml', 'synthetic'):
+            key = e.get('HWLOC_XMLFILE') or e.get('HWLOC_SYNTHETIC')
+            topo_envs.setdefault(key, (c, e))
+
+    def topo_check(ce):
+        c, e = ce
+        want = 'topo=%s osidx=%s ' % ('|'.join(','.join(str(x) for x in sk) for sk in c.sockets),
+                                      ','.join(str(x) for x in c.osidx))
+        rc, out = sh([h, 'TOPO'], timeout=60, env=e)
+        return None if ('OUT TOPO ' + want) in out else (c, e, want, out[-300:])
+    with ThreadPoolExecutor(max_workers=12) as ex:
+        for bad in ex.map(topo_check, list(topo_envs.values())):
+            if bad is not None:
+                c, e, want, out = bad
+                r.hits.append(Hit('tie', 'C15:generator_topology', 'hwloc does not see the generated machine as the generator '
+                                  'does: expected [%s], hwloc [%s]' % (want, out), {'env': e, 'case': c.in_line()}))
+    r.extra['topologies_validated'] = len(topo_envs)
 
     def one(ic):
         c, e = ic
@@ -492,6 +642,7 @@ def run(ctx):
         mode = c.bind.split(':')[0]
         r.count('mode=%s' % mode)
         r.count('env=%s' % c.env_kind)
+        r.count('numbering=%s' % c.numbering)
         r.count('sockets=%d' % len(c.sockets))
         r.count('result=%s' % ('ok' if 'err' not in d else d['err']))
         if 'err' not in d and int(d.get('n', '0')) >= 2 and (len(c.sockets) >= 2 or len(c.eff_logical()) < c.total() or c.pools):
